@@ -34,10 +34,10 @@ def _op_place(o):
 
 
 def _outer(f):
-    return f[0] if isinstance(f, tuple) and f and f[0] != "discr" else None
+    return f[0] if isinstance(f, tuple) and f and f[0] not in ("discr", "bool") else None
 
 
-def _transfer(fn, b, fs, tracked, root):
+def _transfer(fn, b, fs, tracked, root, enums=frozenset(), resolved=None):
     """Apply block b's statements and terminator to the fact map fs; returns (facts-after, successor list).
     A fact is (variant, inner fact or None): `Ok(Some(x))` is ("Ok", ("Some", None))."""
     fs = dict(fs)
@@ -48,7 +48,8 @@ def _transfer(fn, b, fs, tracked, root):
         k = rv["k"]
         new = None
         if not lhs.get("p"):
-            if k == "agg" and rv.get("ak") == "adt" and rv.get("adt") in TRACK_ADTS and (lhs["l"] in tracked or in_callee):
+            if k == "agg" and rv.get("ak") == "adt" and rv.get("variant") is not None and \
+                    (rv.get("adt") in TRACK_ADTS or rv.get("adt") in enums):
                 inner = None
                 if len(rv["fields"]) == 1:
                     p = _op_place(rv["fields"][0])
@@ -71,8 +72,24 @@ def _transfer(fn, b, fs, tracked, root):
                         new = fs[p["l"]][1]
             elif k == "discr":
                 p = rv["pl"]
-                if not p.get("p") and _outer(fs.get(p["l"])) in DISCR:
-                    new = ("discr", DISCR[_outer(fs[p["l"]])], p["l"])
+                ov = _outer(fs.get(p["l"])) if not p.get("p") else None
+                if ov is not None:
+                    val = None
+                    for vv in rv.get("variants", []):
+                        if vv["name"] == ov:
+                            val = int(vv["val"])
+                    if val is None and ov in DISCR and rv.get("adt") in TRACK_ADTS:
+                        val = DISCR[ov]
+                    if val is not None:
+                        new = ("discr", val, p["l"])
+            elif k == "use" and False:
+                pass
+            if new is None and k == "use" and "c" in rv["op"] and rv["op"]["c"].get("ty") == "bool":
+                new = ("bool", bool(rv["op"]["c"].get("v")))
+            elif new is None and k == "un" and rv.get("op") == "Not":
+                p = _op_place(rv["a"])
+                if p is not None and not p.get("p") and isinstance(fs.get(p["l"]), tuple) and fs[p["l"]][0] == "bool":
+                    new = ("bool", not fs[p["l"]][1])
             if new is not None:
                 fs[lhs["l"]] = new
             else:
@@ -99,8 +116,7 @@ def _transfer(fn, b, fs, tracked, root):
             p = _op_place(t["args"][0])
             if p is not None and not p.get("p") and _outer(fs.get(p["l"])) in BRANCH:
                 new = (BRANCH[_outer(fs[p["l"]])], fs[p["l"]][1])
-        if f.get("orig") == "core::ops::try_trait::FromResidual::from_residual" and not d.get("p") and \
-                (d["l"] in tracked or in_callee):
+        if f.get("orig") == "core::ops::try_trait::FromResidual::from_residual" and not d.get("p"):
             ty = fn.locals[d["l"]]["ty"]
             if ty.startswith("core::result::Result<"):
                 new = ("Err", None)
@@ -121,7 +137,18 @@ def _transfer(fn, b, fs, tracked, root):
         succ = [tb for _, tb in t["targets"]] + [t["otherwise"]]
         if p is not None and not p.get("p"):
             f_ = fs.get(p["l"])
-            if isinstance(f_, tuple) and f_[0] == "discr":
+            if isinstance(f_, tuple) and f_[0] == "bool" and t.get("op_ty") == "bool":
+                explicit = {int(v): tb for v, tb in t["targets"]}
+                if f_[1]:
+                    tgt = t["otherwise"] if 0 in explicit else explicit.get(1, t["otherwise"])
+                else:
+                    tgt = explicit.get(0, t["otherwise"])
+                succ = [tgt]
+                if resolved is not None:
+                    resolved.append((p["l"], 1 if f_[1] else 0, "bool"))
+                if "mv" in t["op"]:
+                    fs.pop(p["l"], None)
+            elif isinstance(f_, tuple) and f_[0] == "discr":
                 val = f_[1]
                 tgt = None
                 for v, tb in t["targets"]:
@@ -130,6 +157,8 @@ def _transfer(fn, b, fs, tracked, root):
                 if tgt is None:
                     tgt = t["otherwise"]
                 succ = [tgt]
+                if resolved is not None:
+                    resolved.append((p["l"], val, "discr"))
                 fs.pop(p["l"], None)
                 # the matched value keeps its payload fact until it is moved out, but its own variant is consumed
                 src = fs.get(f_[2])
@@ -165,6 +194,10 @@ def _relevant_liveness(fn):
                     use(p["l"])
             elif k == "discr":
                 use(rv["pl"]["l"])
+            elif k == "un":
+                p = _op_place(rv["a"])
+                if p is not None:
+                    use(p["l"])
             elif k == "agg":
                 for o in rv["fields"]:
                     p = _op_place(o)
@@ -229,18 +262,19 @@ def _retarget(t, mapping):
 
 def threaded(fn, limit_factor=4):
     tracked = set(fn.raw.get("inlined_rets", []))
-    if not tracked:
-        return fn
     blocks = fn.blocks
     nb = len(blocks)
     root = fn.path
     live = _relevant_liveness(fn)
+    fx_ = getattr(fn, "fx", None)
+    enums = frozenset(p_ for p_, a_ in (fx_.adts.items() if fx_ is not None else []) if a_.get("kind") == "enum")
     limit = limit_factor * nb + 400
     # explore the product
     start = (0, frozenset())
     index = {start: 0}
     order = [start]
     succs = {}
+    resolved_at = {}
     work = [start]
     while work:
         st = work.pop()
@@ -249,7 +283,10 @@ def threaded(fn, limit_factor=4):
         if b.get("cleanup"):
             succs[st] = []
             continue
-        out, ss = _transfer(fn, b, dict(fs), tracked, root)
+        rs = []
+        out, ss = _transfer(fn, b, dict(fs), tracked, root, enums, rs)
+        if rs:
+            resolved_at[st] = rs[0]
         res = []
         for s in ss:
             if blocks[s].get("cleanup"):
@@ -279,6 +316,9 @@ def threaded(fn, limit_factor=4):
             nbk["term"] = _retarget(t, mapping)
         except (KeyError, ValueError):
             return fn
+        if st in resolved_at and nbk["term"].get("threaded_switch"):
+            l_, v_, kind_ = resolved_at[st]
+            nbk["term"]["threaded_switch"] = {"local": l_, "val": v_, "kind": kind_}
         new_blocks.append(nbk)
     raw = dict(fn.raw)
     raw["blocks"] = new_blocks
